@@ -68,7 +68,7 @@ func (c15) Budget(tier string) runner.Budget {
 	if tier == "thorough" {
 		return runner.Budget{Plans: 30000, PlansPerProc: 20, Wall: 14 * time.Minute}
 	}
-	return runner.Budget{Plans: 5000, PlansPerProc: 40, Wall: 45 * time.Second}
+	return runner.Budget{Plans: 5000, PlansPerProc: 40, Wall: 45 * time.Second, MinPlans: 2600}
 }
 
 func (c15) Describe() runner.Description {
